@@ -202,10 +202,11 @@ func Shrink(s Script, ex Exec, want *Violation, budget int) (Script, *Violation,
 	// script (a Go map's iteration order deciding what it does) would otherwise let the shrinker drift to a
 	// script that fails only now and then.
 	t0 := time.Now()
+	// the wall-clock cap bounds minimisation effort only (long scripts execute slowly); the verdict never
+	// depends on it: whatever script is reported is replayed in a fresh process
+	spent := func() bool { return execs >= budget || time.Since(t0) > ShrinkWall }
 	same := func(c Script) *Violation {
-		// the wall-clock cap bounds minimisation effort only (long scheduled scripts execute slowly); the
-		// verdict never depends on it: whatever script is reported is replayed in a fresh process
-		if execs >= budget || time.Since(t0) > ShrinkWall {
+		if spent() {
 			return nil
 		}
 		if once(c) == nil {
@@ -216,14 +217,14 @@ func Shrink(s Script, ex Exec, want *Violation, budget int) (Script, *Violation,
 	cur, curV := s, want
 	// ddmin: chunks of decreasing size
 	n := 2
-	for cur.Len() >= 2 && execs < budget {
+	for cur.Len() >= 2 && !spent() {
 		l := cur.Len()
 		if n > l {
 			n = l
 		}
 		chunk := (l + n - 1) / n
 		reduced := false
-		for start := 0; start < l; start += chunk {
+		for start := 0; start < l && !spent(); start += chunk {
 			end := start + chunk
 			if end > l {
 				end = l
@@ -250,9 +251,9 @@ func Shrink(s Script, ex Exec, want *Violation, budget int) (Script, *Violation,
 		}
 	}
 	// single-element removal to 1-minimality
-	for again := true; again && execs < budget; {
+	for again := true; again && !spent(); {
 		again = false
-		for i := cur.Len() - 1; i >= 0; i-- {
+		for i := cur.Len() - 1; i >= 0 && !spent(); i-- {
 			c := cur.Without([]int{i})
 			if v := same(c); v != nil {
 				cur, curV = c, v
@@ -261,9 +262,12 @@ func Shrink(s Script, ex Exec, want *Violation, budget int) (Script, *Violation,
 		}
 	}
 	// simplification passes
-	for again := true; again && execs < budget; {
+	for again := true; again && !spent(); {
 		again = false
 		for _, c := range cur.Simpler() {
+			if spent() {
+				break
+			}
 			if v := same(c); v != nil {
 				cur, curV = c, v
 				again = true
